@@ -56,6 +56,10 @@ def is_exc(v):
 def same(a, b):
     if is_exc(a) or is_exc(b):
         return False
+    if isinstance(a, (tuple, list)) or isinstance(b, (tuple, list)):
+        # multi-element formats read back as tuples (lists after a pipe)
+        return isinstance(a, (tuple, list)) and \
+            isinstance(b, (tuple, list)) and list(a) == list(b)
     return isinstance(b, (int, float)) and a == b
 
 
@@ -401,7 +405,7 @@ def selftest():
             raw = struct.pack(fmt, K.PROBE[fmt])
         if 0 in raw:
             raise core.Internal("probe for %r has a zero byte" % fmt)
-    if len(K.ORDER) != 285 + 2 or len(set(K.ORDER)) != len(K.ORDER):
+    if len(K.ORDER) != 285 + 6 or len(set(K.ORDER)) != len(K.ORDER):
         raise core.Internal("class table incomplete")
 
 
